@@ -69,8 +69,13 @@ CLAIMED.update({
               "§4 C16", True),
 })
 
+CLAIMED.update({
+    "C14": _c("static analysis: path-sensitive enumeration of the notation dispatch; option-getter reachability per sibling back-end; origin of punctuation bytes; round-mode gating of every round-up, on MIR",
+              "The control clauses only: in every compiled back-end (algorithm/compact, binary, hex, radix) exponent notation is chosen exactly when the format allows it and (the format requires it or sci_exp < negative_exponent_break or sci_exp > positive_exponent_break), the positional writer by the sign of the same sci_exp; every back-end reads all eight Options getters; the decimal point and exponent character stored are the configured ones and no punctuation literal is written; every round-up of truncated digits happens only when round_mode() is Round. Digit counts, rounded values, carries, padding and trimming as functions of (value, options) are not decided.",
+              "§4 C14"),
+})
+
 NOT_APPLICABLE = {
     "C06": "Exactness of power-of-two radix float output is arithmetic on runtime exponents (calculate_shl, scale_sci_exp); no table or guard whose truth implies it beyond the digit tables already covered under C03.",
     "C07": "Generic-radix float output is native floating-point digit generation with carry back-tracking; every clause (valid digits, <2048 ulp, exact integers) is a statement about runtime values.",
-    "C14": "Digit counts, rounding carries, notation thresholds and trimming are functions of (value, options); no structural necessary condition beyond the defaults agreement checked under C09.",
 }
